@@ -978,10 +978,18 @@ func c09Coq(c *c09Case) string {
 	if c.CancelMs > 0 {
 		canc = fmt.Sprintf("(Some %d)", c09U(c.CancelMs))
 	}
-	return fmt.Sprintf("mkcase (mkcfg %d %d %d %d %d %d) %s [%s] %d %d %s [%s] %s %s %d %s %s %s %s [%s] [%s] (%d, %d, %d)",
+	return fmt.Sprintf("mkcase (mkcfg %d %d %d %d %d %d) %s [%s] %d %d %s [%s] %s %d %s %d %s %s %s %s [%s] [%s] (%d, %d, %d)",
 		c09U(c.DialMs), c09U(c.WriteMs), c09U(c.ReadMs), c.QueueLen, objMax, idle, conn, strings.Join(acts, "; "),
-		c.Callers, c.Calls, c09Tmo(c), strings.Join(gl, "; "), coqBool(c.OneWay), canc, c.RejectMod, coqBool(c.Prime && c.Callers > 1), pred, nconn, held, strings.Join(obs, "; "), strings.Join(evs, "; "),
+		c.Callers, c.Calls, c09Tmo(c), strings.Join(gl, "; "), coqBool(c.OneWay), c09ModelProxies(c), canc, c.RejectMod, coqBool(c.Prime && c.Callers > 1), pred, nconn, held, strings.Join(obs, "; "), strings.Join(evs, "; "),
 		c09NN(o.QueueLen), c09NN(o.InvokeNum), len(o.Pending))
+}
+
+// c09ModelProxies: the number of ServantProxy objects for the one object as the model counts them (0 = one proxy)
+func c09ModelProxies(c *c09Case) int {
+	if c.SameObject && c.Proxies > 1 {
+		return c.Proxies
+	}
+	return 0
 }
 
 // c09Tmo renders the three sources of the call's timeout as they are (the model derives the effective timeout itself)
@@ -1438,14 +1446,17 @@ func c09Gen(tier string, rng *rand.Rand) []c09Case {
 		c.SameObject = true
 		c.Callers = pick(4, 6, 12)
 		c.Calls = 3
-		c.Predict = false
+		c.Predict = false // the callers' later calls start at their own pace
 		cs = append(cs, c)
+		c = base("same-object-proxies-overlap-once", "accept", rep(pick(40, 60)))
+		c.Proxies = pick(2, 3)
+		c.SameObject = true
+		c.Callers = pick(4, 6, 12)
+		cs = append(cs, maybePrime(c))
 		c = base("same-object-proxies-timeouts", "accept", []c09Act{{Do: "none"}})
 		c.Proxies = 2
 		c.SameObject = true
 		c.Callers = pick(2, 4, 8)
-		c.Calls = 2
-		c.Predict = false
 		cs = append(cs, c)
 		c = base("same-object-proxies-refused", "refuse", []c09Act{{Do: "none"}})
 		c.Proxies = 2
